@@ -275,7 +275,10 @@ THIELE_BOUNDARY = ['CS1C=CC=C1', 'C1=CC=CN1~[Fe]', 'C1=CC=CB1~[Na]', 'C1=CC=CP1(
 
 # Kekule forms on which the hydrogen-moving search of thiele(fix_tautomers=True) has donors and acceptors
 TAUTOMER_INPUTS = ['N1C=CC2=NC=NC2=C1', 'C1=CC2=NC=CC2=CN1', 'N1C=CC2=CC=NC2=C1', 'N1C=CC2=NC3=CC=CC=C3C2=C1', 'N1C=NC2=NC=CC2=C1', 'O=C1NC=CC2=NC=CC12',
-                   'N1C=CC2=NC=CC2=N1', 'C1=CC2=NC=CC2=CN1C', 'N1C=CC2=C1C=CC1=NC=CC21', 'N1C=CC2=NC=CC2=C1.N1C=CC2=NC=CC2=C1', 'N1C=CC(=C2C=CN=C2)C=C1']
+                   'N1C=CC2=NC=CC2=N1', 'C1=CC2=NC=CC2=CN1C', 'N1C=CC2=C1C=CC1=NC=CC21', 'N1C=CC2=NC=CC2=C1.N1C=CC2=NC=CC2=C1', 'N1C=CC(=C2C=CN=C2)C=C1',
+                   # the hydrogen-moving search has to back out of a branch and come back through atoms it saw there (odd rings on
+                   # the way): without the reset of `seen` on backtracking the results differ
+                   'C1=CC2=CNC3=C4N=NC=C4N=C3C2=C1', 'C1=CC2=NC3=C4NC=NC=C4C=C3C2=C1', 'C1=CNC2=C3C(=CC2=C1)C=C1C=NC=C13']
 
 KEKULE_SPELLED = [
     # Kekule spellings that thiele aromatises
